@@ -364,7 +364,7 @@ def io_textgrid(draw, rich=True, tokens=True, max_tiers=4, clean=True, styles=("
         # the class words of the format inside the text of a tier of the *other* class
         t = tiers[draw(st.integers(0, len(tiers) - 1))]
         other = "IntervalTier" if t["type"] == "point" else "TextTier"
-        word = draw(st.sampled_from([f'"{other}"', other, f'class = "{other}"', f'x "{other}" y']))
+        word = draw(st.sampled_from([f'"{other}"', other, f'class = "{other}"', f'x "{other}" y', "see item[2] below", "item[1]"]))
         if t["entries"]:
             t["entries"][draw(st.integers(0, len(t["entries"]) - 1))][-1] = word
         elif not unique_names or word not in used:
